@@ -10,7 +10,9 @@ import NixModel.Lemmas.C12Ops
 namespace Nix.Store.Lemmas
 open Nix.Store Nix.Store.Graph
 
-theorem autoArray_unch {g : Graph} (hT : Tidy g) (p : Path) (n t : String) (f : Option Fault) (e : Err)
+theorem autoArray_unch' {g : Graph} (hK : KeysLt g)
+    (hto : ∀ o, resolve g rootLoc p = some o → ∀ l, l ∈ g.links o.key → Has g l.2)
+    (n t : String) (f : Option Fault) (e : Err)
     (h : (autoArray g p n t f).2 = .error e) : Unch g (autoArray g p n t f).1 := by
   unfold autoArray at h ⊢
   cases hr : resolve g rootLoc p with
@@ -38,7 +40,7 @@ theorem autoArray_unch {g : Graph} (hT : Tidy g) (p : Path) (n t : String) (f : 
           | false =>
             simp only [hd, Bool.false_eq_true, ↓reduceIte] at h ⊢
             have roll := fun g1 c k hE =>
-              entity_rollback hT "data_arrays" n t "data_array" ho (.inr hk') hn hsl ht hd g1 c k hE
+              entity_rollback hK (hto o hr) "data_arrays" n t "data_array" ho (.inr hk') hn hsl ht hd g1 c k hE
             generalize hE : entityCreateNewW g o.key "data_arrays" n t "data_array" = r at h ⊢
             rcases r with ⟨g1, (e' | ⟨c, k⟩)⟩
             · have := entityCreateNewW_err (P := Has g) g o.key "data_arrays" n t "data_array" e' (by rw [hE])
@@ -52,6 +54,10 @@ theorem autoArray_unch {g : Graph} (hT : Tidy g) (p : Path) (n t : String) (f : 
                 cases hf2 : stageFault Stage.data f with
                 | some e2 => exact roll g1 c k hE _ (fun P hP => sameOn_addDataset g1 _ hP)
                 | none => simp [hf2] at h
+
+theorem autoArray_unch {g : Graph} (hT : Tidy g) (p : Path) (n t : String) (f : Option Fault) (e : Err)
+    (h : (autoArray g p n t f).2 = .error e) : Unch g (autoArray g p n t f).1 :=
+  autoArray_unch' hT.keysLt (fun o _ => hT.targets o.key) n t f e h
 
 /-- an argument of an invalid class never yields an array -/
 theorem autoArray_fault_fails (g : Graph) (p : Path) (n t : String) (f : Fault) (k : Nat) :
@@ -95,115 +101,5 @@ theorem normArr_cases (g : Graph) (a : ArrArg) (h : a ≠ .data none) :
     cases f with
     | none => exact absurd rfl h
     | some f => exact .inr (.inr ⟨f, rfl⟩)
-
-/-- **`create_multi_tag`, partial**: refused ⇒ unchanged whenever no auto-created array has to be
-deleted again (positions / extents are existing objects, None, or data of an invalid class).
-Missing for the full statement: `delete_all([id])` of a successfully auto-created array removes
-exactly the link just made (needs `ids_wf`: no other node carries the fresh id). -/
-theorem createMultiTagW_unch_partial {g : Graph} (hT : Tidy g) (p : Path) (n t : String)
-    (pos ext : ArrArg) (hA : NoAutoArray pos ext) (e : Err)
-    (h : (createMultiTagW g p n t pos ext).2 = some e) : Unch g (createMultiTagW g p n t pos ext).1 := by
-  unfold createMultiTagW at h ⊢
-  cases hr : resolve g rootLoc p with
-  | none => exact Unch.refl g
-  | some o =>
-    simp only [hr] at h ⊢
-    split
-    · exact Unch.refl g
-    · rename_i hk
-      rw [if_neg hk] at h
-      have hk' : kindOf g o.key ≠ "" := by
-        intro e0; rw [e0] at hk; simp at hk
-      have ho : Has g o.key := has_of_kindOf hk'
-      cases hc : checkNameType n t with
-      | error e0 => exact Unch.refl g
-      | ok u =>
-        simp only [hc] at h ⊢
-        obtain ⟨hn, hsl, ht⟩ := checkNameType_ok hc
-        cases hd : hasEntry g o.key "multi_tags" n with
-        | true => simp only [↓reduceIte]; exact Unch.refl g
-        | false =>
-          simp only [hd, Bool.false_eq_true, ↓reduceIte] at h ⊢
-          -- the tail shared by all paths on which the positions are an existing array `pk` and nothing was created
-          have tail : ∀ (pk : Nat) (ek : Option Nat),
-              (match entityCreateNewW g o.key "multi_tags" n t "multi_tag" with
-                | (g3, Except.error e) => (g3, some e)
-                | (g3, Except.ok (c, k)) =>
-                  if (!isKind g3 pk "data_array") = true then (g3.delLink c n, some Err.typeError)
-                  else if (!inBlockStore g3 o.key "data_arrays" pk) = true then (g3.delLink c n, some Err.runtimeError)
-                  else
-                    match ek with
-                    | none => (createLinkIn g3 k "positions" pk, none)
-                    | some e =>
-                      if (!isKind (createLinkIn g3 k "positions" pk) e "data_array") = true then
-                        ((createLinkIn g3 k "positions" pk).delLink c n, some Err.typeError)
-                      else if (!inBlockStore (createLinkIn g3 k "positions" pk) o.key "data_arrays" e) = true then
-                        ((createLinkIn g3 k "positions" pk).delLink c n, some Err.runtimeError)
-                      else (createLinkIn (createLinkIn g3 k "positions" pk) k "extents" e, none) : Reached).2 ≠ none →
-              Unch g (match entityCreateNewW g o.key "multi_tags" n t "multi_tag" with
-                | (g3, Except.error e) => (g3, some e)
-                | (g3, Except.ok (c, k)) =>
-                  if (!isKind g3 pk "data_array") = true then (g3.delLink c n, some Err.typeError)
-                  else if (!inBlockStore g3 o.key "data_arrays" pk) = true then (g3.delLink c n, some Err.runtimeError)
-                  else
-                    match ek with
-                    | none => (createLinkIn g3 k "positions" pk, none)
-                    | some e =>
-                      if (!isKind (createLinkIn g3 k "positions" pk) e "data_array") = true then
-                        ((createLinkIn g3 k "positions" pk).delLink c n, some Err.typeError)
-                      else if (!inBlockStore (createLinkIn g3 k "positions" pk) o.key "data_arrays" e) = true then
-                        ((createLinkIn g3 k "positions" pk).delLink c n, some Err.runtimeError)
-                      else (createLinkIn (createLinkIn g3 k "positions" pk) k "extents" e, none) : Reached).1 := by
-            intro pk ek hne
-            have roll := fun g1 c k hE =>
-              entity_rollback hT "multi_tags" n t "multi_tag" ho (.inr hk') hn hsl ht hd g1 c k hE
-            generalize hE : entityCreateNewW g o.key "multi_tags" n t "multi_tag" = r at hne ⊢
-            rcases r with ⟨g3, (e' | ⟨c, k⟩)⟩
-            · have := entityCreateNewW_err (P := Has g) g o.key "multi_tags" n t "multi_tag" e' (by rw [hE])
-              rw [hE] at this
-              exact this.unch
-            · simp only at hne ⊢
-              have r0 := roll g3 c k hE g3 (fun P _ => SameOn.refl P g3)
-              have r1 := roll g3 c k hE (createLinkIn g3 k "positions" pk)
-                (fun P hP => sameOn_createLinkIn g3 "positions" pk hP)
-              split
-              · exact r0
-              · split
-                · exact r0
-                · cases ek with
-                  | none => simp_all
-                  | some e1 =>
-                    simp only at hne ⊢
-                    split
-                    · exact r1
-                    · split
-                      · exact r1
-                      · simp_all
-          rcases normArr_cases g pos hA.1 with ⟨pk, hp⟩ | hp | ⟨f, hp⟩
-          · simp only [hp] at h ⊢
-            rcases normArr_cases g ext hA.2 with ⟨ek, he⟩ | he | ⟨f2, he⟩
-            · simp only [he, Bool.false_eq_true, ↓reduceIte] at h ⊢
-              have tl := tail pk (some ek)
-              simp only at tl
-              exact tl (fun hh => absurd (hh.symm.trans h) (by simp))
-            · simp only [he, Bool.false_eq_true, ↓reduceIte] at h ⊢
-              have tl := tail pk none
-              simp only at tl
-              exact tl (fun hh => absurd (hh.symm.trans h) (by simp))
-            · simp only [he] at h ⊢
-              generalize hA2 : autoArray g p (n ++ "-extents") (t ++ "-extents") (some f2) = r at h ⊢
-              rcases r with ⟨g2, (e2 | k2)⟩
-              · simp only [Bool.false_eq_true, ↓reduceIte]
-                have := autoArray_unch hT p _ _ (some f2) e2 (by rw [hA2])
-                rw [hA2] at this; exact this
-              · exact absurd (by rw [hA2]) (autoArray_fault_fails g p _ _ f2 k2)
-          · simp only [hp]; exact Unch.refl g
-          · simp only [hp] at h ⊢
-            generalize hA1 : autoArray g p (n ++ "-positions") (t ++ "-positions") (some f) = r at h ⊢
-            rcases r with ⟨g1, (e1 | k1)⟩
-            · simp only
-              have := autoArray_unch hT p _ _ (some f) e1 (by rw [hA1])
-              rw [hA1] at this; exact this
-            · exact absurd (by rw [hA1]) (autoArray_fault_fails g p _ _ f k1)
 
 end Nix.Store.Lemmas
